@@ -244,3 +244,369 @@ def bad_arguments(prog: Program, fi: FuncInfo, call: ast.Call):
             if miss:
                 probs.append((label, f"missing required argument(s) {miss}"))
     return probs
+
+
+# ----------------------------------------------------------------------------- names are bound
+
+_UNBOUND: dict = {}
+_MODULE_DUNDERS = {"__file__", "__name__", "__doc__", "__class__", "__package__", "__spec__", "__loader__", "__builtins__", "__path__", "__debug__", "__annotations__", "__dict__", "__qualname__", "__module__"}
+
+
+def _type_checking_only(tree: ast.Module) -> set:
+    """module-level names that are bound ONLY inside `if TYPE_CHECKING:` blocks (they do not exist at run time)"""
+    tc: set = set()
+    other: set = set()
+
+    def binds(stmts, into) -> None:
+        for st in stmts:
+            if isinstance(st, (ast.FunctionDef, ast.AsyncFunctionDef, ast.ClassDef)):
+                into.add(st.name)
+                continue
+            for x in ast.walk(st):
+                if isinstance(x, (ast.Import, ast.ImportFrom)):
+                    for a in x.names:
+                        into.add((a.asname or a.name).split(".")[0])
+                elif isinstance(x, (ast.FunctionDef, ast.AsyncFunctionDef, ast.ClassDef)):
+                    into.add(x.name)
+                elif isinstance(x, ast.Name) and isinstance(x.ctx, ast.Store):
+                    into.add(x.id)
+
+    for st in tree.body:
+        if isinstance(st, ast.If) and any(isinstance(y, (ast.Name, ast.Attribute)) and (getattr(y, "id", None) or getattr(y, "attr", None)) == "TYPE_CHECKING" for y in ast.walk(st.test)) and not any(isinstance(y, ast.Not) for y in ast.walk(st.test)):
+            binds(st.body, tc)
+            binds(st.orelse, other)
+        else:
+            binds([st], other)
+    return tc - other
+
+
+def unbound_names(module) -> list:
+    """[(scope name, first line of the scope, name)] for names that a function / class body of the module reads at
+    run time although nothing binds them: not a local, not a variable of an enclosing function, not a module-level
+    name (definitions, imports — those under `if TYPE_CHECKING:` do not count), not a builtin.  Decided with the
+    compiler's own symbol tables (`symtable`): annotations are not run-time reads (`from __future__ import
+    annotations`), comprehension scopes, global / nonlocal declarations and class scopes are treated as the compiler
+    treats them.  A module with a star import is not judged."""
+    import builtins
+    import symtable
+
+    key = (module.path, hash(module.src))
+    if key in _UNBOUND:
+        return _UNBOUND[key]
+    out: list = []
+    try:
+        tree = ast.parse(module.src)
+        top = symtable.symtable(module.src, module.path, "exec")
+    except SyntaxError:
+        _UNBOUND[key] = out
+        return out
+    if any(isinstance(x, ast.ImportFrom) and any(a.name == "*" for a in x.names) for x in ast.walk(tree)):
+        _UNBOUND[key] = out
+        return out
+    future_ann = any(isinstance(x, ast.ImportFrom) and x.module == "__future__" and any(a.name == "annotations" for a in x.names) for x in tree.body)
+    bound = {s.get_name() for s in top.get_symbols() if s.is_assigned() or s.is_imported() or s.is_namespace()}
+    # names declared `global` in a function and assigned there are module-level names as well
+    def walk(t):
+        yield t
+        for c in t.get_children():
+            yield from walk(c)
+
+    for t in walk(top):
+        if t is not top:
+            for s in t.get_symbols():
+                if s.is_declared_global() and s.is_assigned():
+                    bound.add(s.get_name())
+    tc_only = _type_checking_only(tree) if future_ann else set()
+    for t in walk(top):
+        if t is top:
+            continue
+        for s in t.get_symbols():
+            n = s.get_name()
+            if not (s.is_referenced() and s.is_global()):
+                continue
+            if n in _MODULE_DUNDERS or hasattr(builtins, n):
+                continue
+            if n not in bound or n in tc_only:
+                out.append((t.get_name(), t.get_lineno(), n))
+    _UNBOUND[key] = out
+    return out
+
+
+def check_names_bound(prog: Program, res, rule: str) -> None:
+    """every name read at run time in the functions the rules of this check consulted is bound (see unbound_names)"""
+    touched = set(res.functions_analysed)
+    # … and every function of the files the property is anchored in (properties.jsonl)
+    anchored: set = set()
+    try:
+        import json
+        import os
+
+        with open(os.path.join(os.path.dirname(os.path.dirname(os.path.abspath(__file__))), "properties.jsonl"), encoding="utf-8") as fh:
+            for line in fh:
+                d = json.loads(line)
+                if d.get("id") == res.prop:
+                    anchored = {a for a in d.get("anchors", {}).get("files", [])}
+    except OSError:
+        anchored = set()
+    mods = {}
+    for fi in prog.funcs:
+        if fi.key in touched or fi.module.relpath in anchored:
+            mods.setdefault(fi.module.path, (fi.module, []))[1].append(fi)
+    n = 0
+    for _path, (module, funcs) in sorted(mods.items()):
+        hits = unbound_names(module)
+        spans = [(f, f.node.lineno, getattr(f.node, "end_lineno", f.node.lineno) or f.node.lineno) for f in funcs]
+        n += len(funcs)
+        for scope, line, name in hits:
+            owner = [f for f, lo, hi in spans if lo <= line <= hi]
+            if not owner:
+                continue
+            f = min(owner, key=lambda g: (getattr(g.node, "end_lineno", 0) or 0) - g.node.lineno)
+            use = next((x for x in ast.walk(f.node) if isinstance(x, ast.Name) and x.id == name and isinstance(x.ctx, ast.Load)), f.node)
+            res.violation(rule, f, use, f"`{name}` is read in {f.short} but nothing binds it (no local, enclosing, module-level or builtin name; imports under `if TYPE_CHECKING:` do not exist at run time): the first call that reaches this line raises NameError", construct=name, key_extra=f"unbound-name-{name}")
+    n_attr = 0
+    for _path, (module, funcs) in sorted(mods.items()):
+        for f in funcs:
+            for x, recv, attr, lacking in missing_attributes(prog, f):
+                n_attr += 1
+                res.violation(rule, f, x, f"{recv}.{attr} does not exist on {', '.join(c.name for c in lacking)} (no method, property, slot, field or instance store): {f.short} raises AttributeError when it gets here", construct=f"{recv}.{attr}", key_extra=f"missing-attr-{attr}")
+            for x, recv, attr, classes in missing_attributes_typed(prog, f):
+                n_attr += 1
+                res.violation(rule, f, x, f"`{recv}.{attr}`: the receiver is a {' | '.join(sorted(c.name for c in classes))}, which has no attribute `{attr}` (no method, property, field, slot or instance store in its hierarchy or its subclasses): {f.short} raises AttributeError when it gets here", construct=f"{recv}.{attr}", key_extra=f"missing-attr-{recv[-30:]}.{attr}")
+    for _path, (module, funcs) in sorted(mods.items()):
+        for f in funcs:
+            for x, place, val, pa, pb in crossed_roles(f):
+                res.violation(rule, f, x, f"`{place}` receives `{unparse(val)[:60]}` in {f.short}: what is named after `{pb}` is handed on as `{pa}` (and nothing named after `{pa}` is in it) — the two roles are swapped / one is used twice, silently", construct=f"{place}={unparse(val)[:40]}", key_extra=f"crossed-roles-{place}")
+            for q in ignored_parameters(prog, f):
+                res.violation(rule, f, f.node, f"parameter `{q}` of {f.short} is accepted but never read: a caller that sets it gets the behaviour of the default, silently", construct=f"def {f.name}(… {q} …)", key_extra=f"ignored-parameter-{q}")
+            for c, lab, opt in dropped_companions(prog, f):
+                res.violation(rule, f, c, f"{f.short} has `{opt}` at hand but calls {lab} without it: the callee falls back to its default (no weights / the default convention) — the result is computed as if the caller had not been given `{opt}`, silently", key_extra=f"dropped-{opt}-{lab}")
+            for c in [y for y in walk_no_nested(f.node) if isinstance(y, ast.Call)]:
+                for lab, pr in bad_arguments(prog, f, c):
+                    res.violation(rule, f, c, f"call of {lab} in {f.short}: {pr} — raises TypeError when it gets here", key_extra=f"bad-call-{lab}-{pr[:40]}")
+    if n:
+        res.ok(rule, "names bound", f"in the {n} consulted functions ({len(mods)} modules): every name read at run time is bound, attributes exist on receivers of a known package class, calls to resolved package callees fit their signature, no named parameter is ignored, no value crosses over between sibling roles (ra/dec, left/right, weights/redshifts, 1/2, …)", nontrivial=False)
+
+
+def missing_attributes_typed(prog: Program, fi: FuncInfo) -> list:
+    """[(node, receiver text, attr, classes)] for attribute loads on receivers OTHER than self whose inferred type is a
+    set of classes of the package (annotations, constructor calls, return annotations of resolved callees) none of
+    which has the attribute — no method, property, class attribute, slot, annotated field or instance store anywhere
+    in its hierarchy, no `__getattr__`, and every external base class known to the analysing interpreter"""
+    hits = []
+    env = prog.func_env(fi)
+    params = fi.param_names()
+    selfname = params[0] if params and fi.cls is not None and not fi.is_staticmethod else None
+    seen = set()
+    base_attrs = set(dir(object))
+    for x in walk_no_nested(fi.node):
+        if not (isinstance(x, ast.Attribute) and isinstance(x.ctx, ast.Load)):
+            continue
+        if isinstance(x.value, ast.Name) and x.value.id == selfname:
+            continue
+        if x.attr.startswith("__") and x.attr.endswith("__"):
+            continue
+        try:
+            ts = env.type_of(x.value)
+        except Exception:  # noqa: BLE001
+            continue
+        if not ts or not all(t[0] == "cls" and isinstance(t[1], ClassInfo) for t in ts):
+            continue
+        classes = [t[1] for t in ts]
+        ok_ = True
+        for c in classes:
+            subs = [c] + prog.subclasses(c)  # a value typed as C may be an instance of any subclass
+            for k in subs:
+                for b in prog.mro(k):
+                    if isinstance(b, ClassInfo):
+                        if "__getattr__" in b.methods or "__getattribute__" in b.methods:
+                            ok_ = False
+                    elif b.split(".")[-1] not in ("object", "ABC", "Generic", "Protocol") and prog.external_attrs(b) <= base_attrs:
+                        ok_ = False
+                if x.attr in prog.class_attr_names(k):
+                    ok_ = False
+        if not ok_:
+            continue
+        key = (unparse(x.value), x.attr)
+        if key in seen:
+            continue
+        seen.add(key)
+        hits.append((x, unparse(x.value), x.attr, classes))
+    return hits
+
+
+# ----------------------------------------------------------------------------- sibling roles, ignored options
+
+import re as _re
+
+_FAMILIES = [
+    {"ra", "dec"},
+    {"left", "right"},
+    {"weights", "redshifts"},
+    {"min", "max"},
+    {"zmin", "zmax"},
+    {"rmin", "rmax"},
+    {"lower", "upper"},
+    {"ref", "unk"},
+    {"dd", "dr", "rd", "rr"},
+    {"1", "2"},
+]
+_CANON = {"weight": "weights", "redshift": "redshifts", "reference": "ref", "unknown": "unk"}
+
+
+def _role_tokens(name: str) -> set:
+    out = set()
+    for part in _re.split(r"_+", name):
+        part = part.lower()
+        m = _re.match(r"^([a-z]+)(\d)$", part)
+        if m:
+            out.update((m.group(1), m.group(2)))
+        elif part:
+            out.add(part)
+            # a one-letter prefix keeps the role: zleft, zmin, rmax
+            for m_ in ("left", "right", "min", "max", "lower", "upper"):
+                if part.endswith(m_) and len(part) == len(m_) + 1:
+                    out.add(m_)
+    return {_CANON.get(t, t) for t in out}
+
+
+def _thin(e: ast.AST) -> bool:
+    """a value that only hands data on: names, attribute chains, subscripts, tuples of those, and tuple()/list() of a
+    generator over an attribute — no arithmetic, no other call"""
+    if isinstance(e, (ast.Name, ast.Constant)):
+        return True
+    if isinstance(e, ast.Attribute):
+        return _thin(e.value)
+    if isinstance(e, ast.Subscript):
+        return _thin(e.value)
+    if isinstance(e, ast.Starred):
+        return _thin(e.value)
+    if isinstance(e, (ast.Tuple, ast.List)):
+        return all(_thin(x) for x in e.elts)
+    if isinstance(e, (ast.GeneratorExp, ast.ListComp)):
+        return _thin(e.elt) and all(_thin(g.iter) or isinstance(g.iter, ast.Call) and isinstance(g.iter.func, ast.Attribute) and g.iter.func.attr in ("values", "items", "keys") for g in e.generators)
+    if isinstance(e, ast.Call) and isinstance(e.func, ast.Name) and e.func.id in ("tuple", "list", "all", "any") and len(e.args) == 1 and not e.keywords:
+        return _thin(e.args[0])
+    return False
+
+
+def crossed_roles(fi: FuncInfo) -> list:
+    """[(node, place, value)] where a value named after one member of a sibling family (ra / dec, left / right,
+    weights / redshifts, min / max, ref / unk, dd / dr / rd / rr, 1 / 2) is handed on — by a keyword binding, an
+    attribute store or an assignment of a thin value — to a place named after ANOTHER member and nothing of the place's
+    own member is in it.  A plain `name = other_name` is the fallback idiom (`if rd is None: rd = dr`) and is left alone"""
+    out = []
+    for x in walk_no_nested(fi.node):
+        pairs = []
+        if isinstance(x, ast.Assign) and len(x.targets) == 1 and isinstance(x.targets[0], (ast.Name, ast.Attribute)):
+            t = x.targets[0]
+            if not (isinstance(t, ast.Name) and isinstance(x.value, ast.Name)):
+                pairs.append((t.id if isinstance(t, ast.Name) else t.attr, x.value))
+        if isinstance(x, ast.Call):
+            pairs += [(k.arg, k.value) for k in x.keywords if k.arg]
+        for place, val in pairs:
+            if not _thin(val):
+                continue
+            called = {id(c.func) for c in ast.walk(val) if isinstance(c, ast.Call)}
+            vt: set = set()
+            for y in ast.walk(val):
+                if id(y) in called:
+                    continue
+                if isinstance(y, ast.Name):
+                    vt |= _role_tokens(y.id)
+                elif isinstance(y, ast.Attribute):
+                    vt |= _role_tokens(y.attr)
+            pt = _role_tokens(place)
+            for fam in _FAMILIES:
+                a, b = pt & fam, vt & fam
+                if len(a) == 1 and b and not (a & b):
+                    out.append((x, place, val, next(iter(a)), sorted(b)[0]))
+    return out
+
+
+_used_as_value: dict = {}
+
+
+def _value_uses(tree: ast.Module) -> set:
+    """names that are loaded somewhere in the module other than as the function of a call"""
+    called = {id(c.func) for c in ast.walk(tree) if isinstance(c, ast.Call)}
+    decos = {id(d) for f in ast.walk(tree) if isinstance(f, (ast.FunctionDef, ast.AsyncFunctionDef, ast.ClassDef)) for d in f.decorator_list}
+    return {x.id for x in ast.walk(tree) if isinstance(x, ast.Name) and isinstance(x.ctx, ast.Load) and id(x) not in called and id(x) not in decos}
+
+
+def ignored_parameters(prog: Program, fi: FuncInfo) -> list:
+    """named parameters that the body never reads.  Not judged: `*args` / `**kwargs`, `_`-prefixed names, special
+    methods, stubs (abstract, overloads, bodies that only raise / pass), and methods whose signature is imposed by an
+    interface (they override a method of a base class or are overridden in a subclass)"""
+    node = fi.node
+    if fi.name.startswith("__") and fi.name.endswith("__"):
+        return []
+    if fi.is_abstract or any(d.split(".")[-1] in ("overload", "abstractmethod", "singledispatch", "register") for d in fi.decorators()):
+        return []
+    body = [s for s in node.body if not (isinstance(s, ast.Expr) and isinstance(s.value, ast.Constant))]
+    if not body or all(isinstance(s, (ast.Pass, ast.Raise)) or (isinstance(s, ast.Return) and (s.value is None or isinstance(s.value, ast.Constant))) for s in body):
+        return []
+    if fi.cls is not None:
+        for k in prog.mro(fi.cls)[1:]:
+            if isinstance(k, ClassInfo) and fi.name in k.methods:
+                return []
+            if not isinstance(k, ClassInfo) and fi.name in prog.external_attrs(k) and fi.name not in dir(object):
+                return []
+        for k in prog.subclasses(fi.cls):
+            if fi.name in k.methods:
+                return []
+    # a function that is handed around as a value (stored in a table of strategies, passed as a callback) has the
+    # signature its users call it with
+    for x in ast.walk(fi.module.tree):
+        if isinstance(x, ast.Name) and x.id == fi.name and isinstance(x.ctx, ast.Load) and fi.cls is None:
+            _used_as_value.setdefault((fi.module.path, id(fi.module.tree)), _value_uses(fi.module.tree))
+            break
+    if fi.cls is None and fi.name in _used_as_value.get((fi.module.path, id(fi.module.tree)), set()):
+        return []
+    a = node.args
+    params = [q.arg for q in [*a.posonlyargs, *a.args, *a.kwonlyargs]]
+    if fi.cls is not None and not fi.is_staticmethod and params:
+        params = params[1:]
+    used = {y.id for s in node.body for y in ast.walk(s) if isinstance(y, ast.Name)}
+    if any(isinstance(y, ast.Call) and isinstance(y.func, ast.Name) and y.func.id in ("locals", "vars") for s in node.body for y in ast.walk(s)):
+        return []
+    return [q for q in params if not q.startswith("_") and q not in used]
+
+
+# ----------------------------------------------------------------------------- data and conventions travel along
+
+CARRIED = ("weights", "redshifts", "closed", "degrees", "cosmology", "unit")
+
+
+def dropped_companions(prog: Program, fi: FuncInfo) -> list:
+    """[(call, callee label, parameter)]: an internal call whose (precisely resolved) callee declares one of the
+    optional data columns / conventions of the package — weights, redshifts (data that travel with the coordinates),
+    closed, degrees, cosmology, unit (conventions with a default) — and the call leaves it to the default.  On the
+    pinned tree every one of the 77 such calls binds them (confirmed by reading; the callee's default is for the end
+    user, not for internal hand-overs): a call that drops one computes silently without the weights / with the default
+    convention although the caller was given another"""
+    from .rules.common import calls_in, named_args
+
+    out = []
+    for c in calls_in(fi):
+        if any(k.arg is None for k in c.keywords) or any(isinstance(a, ast.Starred) for a in c.args):
+            continue
+        try:
+            tg = prog.resolve_call(fi, c)
+        except Exception:  # noqa: BLE001
+            continue
+        if not tg.precise:
+            continue
+        callees = [t for t in list(tg.funcs()) + [prog.find_method(ci, "__init__") for ci in tg.classes() if not ci.is_dataclass] if t is not None]
+        if not callees or getattr(c, "_kwpos", None) is None:
+            continue
+        bound = {pn for pn, _ in named_args(c)}
+        for opt in CARRIED:
+            if not all(opt in t.param_names() for t in callees):
+                continue
+            # conventions: the caller has something to hand on (a parameter, local or attribute of that name); data
+            # columns are handed on wherever the callee takes them
+            has = opt in fi.param_names() or any((isinstance(y, ast.Name) and y.id == opt) or (isinstance(y, ast.Attribute) and y.attr == opt) or (isinstance(y, ast.Constant) and y.value == opt) for y in ast.walk(fi.node))
+            if opt not in bound and (has or opt in ("weights", "redshifts")):
+                out.append((c, callees[0].short, opt))
+    return out
